@@ -1332,3 +1332,20 @@ uint64_t ops_concurrent_check(const char* const* names, int nnames, const env_t*
   }
   return bad;
 }
+
+// one case: the named entries, each run by T threads at once on private data through objects created under dispatch
+// configuration cfg, every call compared with the same call run alone
+void ops_concurrent_case(const char* key, const char* const* names, int nnames, uint64_t N, int cfg, int T, unsigned rep, const char* counter) {
+  char k[160];
+  snprintf(k, sizeof k, "%s|%d threads,private data%s%s", key, T, cfg == DISP_NATIVE ? "" : ",", cfg == DISP_NATIVE ? "" : disp_name[cfg]);
+  if (!case_begin(k, "N=%" PRIu64 " rep=%u", N, rep)) return;
+  env_t* e = env_create(N, cfg);
+  char msg[240] = "";
+  uint64_t calls = 0;
+  uint64_t bad = ops_concurrent_check(names, nnames, e, T, N <= 256 ? 80 : (N <= 2048 ? 30 : 6), G.seed * 7919 + rep + N, msg, sizeof msg, &calls);
+  if (bad) viol("differential", "%s (%" PRIu64 " differing calls, %s dispatch)", msg, bad, disp_name[cfg]);
+  env_destroy(e);
+  cnt(counter, calls);
+  sample("%d entry points, each run by %d threads at once: %" PRIu64 " calls equal to their sequential re-run", nnames, T, calls);
+  case_end(calls > 0);
+}
